@@ -11,7 +11,7 @@ import (
 	"github.com/KevoDB/kevo/pkg/zzverif/vsym"
 )
 
-// VerifC08_SeqMonotone: over programs of puts, 2-entry batches, flushes and clean reopenings, the sequence numbers
+// VerifC08_SeqMonotone: over programs of puts, 2-entry batches, empty batches, flushes and clean reopenings, the sequence numbers
 // stored in the log are strictly increasing in write order (entries of one batch share a number), and the reported
 // last sequence never decreases.
 func VerifC08_SeqMonotone() {
@@ -24,7 +24,9 @@ func VerifC08_SeqMonotone() {
 	var last uint64
 	n := vsym.IntRange("n", 1, 4)
 	for i := 0; i < n; i++ {
-		switch vsym.IntRange("op", 0, 4) {
+		switch vsym.IntRange("op", 0, 5) {
+		case 5: // a batch without operations: nothing is written, no number is used
+			vsym.Assert(m.ApplyBatch([]*wal.Entry{}) == nil, "empty ApplyBatch failed")
 		case 4: // a put whose log entry is fragmented over several records
 			big := make([]byte, 33000)
 			big[0], big[len(big)-1] = vsym.Byte("b"), vsym.Byte("b")
@@ -56,6 +58,9 @@ func VerifC08_SeqMonotone() {
 	_, err = wal.ReplayWALDir(cfg.WALDir, func(e *wal.Entry) error { seqs = append(seqs, e.SequenceNumber); return nil })
 	vsym.Assert(err == nil, "log replay failed")
 	vsym.Assert(len(seqs) == len(writeOf), "log does not hold exactly the issued entries")
+	if len(seqs) > 0 {
+		vsym.Assert(last == seqs[len(seqs)-1], "the reported last sequence is not the number of the last write")
+	}
 	for i := 1; i < len(seqs) && i < len(writeOf); i++ {
 		if writeOf[i] == writeOf[i-1] {
 			vsym.Assert(seqs[i] == seqs[i-1], "entries of one batch carry different numbers")
